@@ -11,10 +11,10 @@ echo "== with change: build + suite"
 go build ./... && go test ./... 2>&1 | grep -v "no test files" | grep -v "^ok" | head -5
 echo "== demo with change (must fail)"
 (cd seed/demo && go test -count=1 ./... 2>&1 | tail -3)
-git stash -q
+git apply -R seed/patch.diff
 echo "== demo without change (must pass)"
 (cd seed/demo && go test -count=1 ./... 2>&1 | tail -3)
-git stash pop -q
+git apply seed/patch.diff
 for c in $checks; do
   echo "== check $c against the change"
   (cd /verif && VERIF_REPO=$wt ./check $c 2>&1 | grep -v "^KNOWN" | cut -c1-400 | tail -6)
